@@ -196,6 +196,55 @@ fn adversarial(rep: &mut Report, tier: &Tier) {
             }
         }
     }
+    // transactions that consume nothing and pay out something, in each producer-only type: an
+    // accepted block that carries one must still satisfy the oracle
+    for p in ps.iter() {
+        let w = &p.w;
+        let g = w.cfg.consensus.genesis_period;
+        let tip = p.tip;
+        let ts = w.blocks[tip].ts + 77;
+        let att = key(3);
+        for (tname, ty, out_ty) in [
+            ("BlockStake", saito_core::core::consensus::transaction::TransactionType::BlockStake, saito_core::core::consensus::slip::SlipType::Normal),
+            ("BlockStake/stake-output", saito_core::core::consensus::transaction::TransactionType::BlockStake, saito_core::core::consensus::slip::SlipType::BlockStake),
+            ("Normal", saito_core::core::consensus::transaction::TransactionType::Normal, saito_core::core::consensus::slip::SlipType::Normal),
+            ("Vip", saito_core::core::consensus::transaction::TransactionType::Vip, saito_core::core::consensus::slip::SlipType::Normal),
+        ] {
+            let mut t = saito_core::core::consensus::transaction::Transaction::default();
+            t.transaction_type = ty;
+            t.timestamp = ts;
+            t.add_to_slip(saito_core::core::consensus::slip::Slip { public_key: att.public, amount: 500_000, slip_type: out_ty, ..Default::default() });
+            t.sign(&att.private);
+            let c = Candidate { edit: String::new(), tx: t, tx2: None, control: false };
+            let ctx = json!({"position": p.name, "transaction": "no inputs, one output of 500000", "type": tname});
+            rep.evaluations += 1;
+            let Ok(bytes) = attacker_block(w, tip, &c, false) else {
+                rep.outcome("adversarial:inputless-unproducible");
+                continue;
+            };
+            let Ok(mut node) = w.node_at(tip, key(9)) else { continue };
+            let before = node.tip().1;
+            rep.transitions += 1;
+            match node.add_block_bytes(&bytes) {
+                Outcome::Done(_) => {}
+                o => {
+                    rep.violate(if o.label().contains("total supply") { "supply-panic/inputless-transaction-with-value" } else { "abort/inputless-transaction-with-value" }, format!("{}: {}", ctx, o.label()), ctx.clone());
+                    continue;
+                }
+            }
+            if node.tip().1 != before {
+                let mut l = w.ledgers[tip].clone();
+                l.apply(&decode_block(&bytes));
+                if let Err(e) = supply_check(&node, &l, w.initial_supply, g) {
+                    rep.violate(&format!("supply-mismatch/inputless-transaction-with-value/{}", tname), format!("{}: {}", ctx, e), ctx.clone());
+                } else {
+                    rep.outcome("adversarial:inputless-accepted-and-conserved");
+                }
+            } else {
+                rep.outcome("adversarial:inputless-refused");
+            }
+        }
+    }
     rep.extra.insert("adversarial_slip_kinds".into(), json!(kinds_seen.iter().collect::<Vec<_>>()));
     for k in ["Normal", "ATR", "MinerOutput", "RouterOutput"] {
         if !kinds_seen.contains(k) {
